@@ -97,6 +97,8 @@ def _one(case):
         units = P.make_picture_data_units(cf, pic, minimum_qindex=case["minq"], minimum_slice_size_scaler=case["mins"])
     except (InsufficientHQPictureBytesError, InsufficientLDPictureBytesError):
         return ("skip", "picture_bytes too small")
+    except Exception as e:  # the only documented refusal is 'picture_bytes too small': anything else means no slices were produced at all
+        return ("fail", {"exception": "%s: %s" % (type(e).__name__, str(e)[:200])})
     if case["profile"] == "hq":
         slices, sp = _collect(units, "hq_slices")
         s = sp["slice_size_scaler"]
